@@ -146,9 +146,10 @@ type rewriter struct {
 	vfs   bool
 	fname string
 
-	needVS  bool
-	tmp     int
-	changed bool
+	needVS     bool
+	needUnsafe bool
+	tmp        int
+	changed    bool
 
 	recv2      map[*ast.UnaryExpr]bool // v, ok := <-c
 	commHeads  map[ast.Node]bool       // statements that are heads of comm clauses
@@ -213,6 +214,9 @@ func (r *rewriter) run() bool {
 		astutil.AddNamedImport(r.fset, r.file, "vs", "verif/vs")
 		r.changed = true
 	}
+	if r.needUnsafe {
+		astutil.AddImport(r.fset, r.file, "unsafe")
+	}
 	return r.changed
 }
 
@@ -252,7 +256,7 @@ func (r *rewriter) analyse() {
 				ast.Inspect(fl.Body, func(m ast.Node) bool {
 					if id, ok := m.(*ast.Ident); ok {
 						if v, ok := r.info().Uses[id].(*types.Var); ok && !v.IsField() {
-							if v.Parent() != pkgScope && (v.Pos() < fl.Pos() || v.Pos() > fl.End()) {
+							if v.Pkg() == r.pkg.Types && v.Parent() != pkgScope && (v.Pos() < fl.Pos() || v.Pos() > fl.End()) {
 								r.shared[v] = true
 							}
 						}
@@ -261,7 +265,7 @@ func (r *rewriter) analyse() {
 				})
 			}
 		case *ast.Ident:
-			if v, ok := r.info().Uses[x].(*types.Var); ok && !v.IsField() && v.Parent() == pkgScope {
+			if v, ok := r.info().Uses[x].(*types.Var); ok && !v.IsField() && v.Pkg() == r.pkg.Types && v.Parent() == pkgScope {
 				r.shared[v] = true
 			}
 		}
@@ -505,6 +509,33 @@ var containerRO = map[string]map[string]bool{
 type access struct {
 	loc   string
 	write bool
+	ptr   string // printed Go expression yielding the unsafe.Pointer identity of the location
+}
+
+func (r *rewriter) src(e ast.Expr) string {
+	var b bytes.Buffer
+	format.Node(&b, r.fset, e)
+	return b.String()
+}
+
+// memPtr is the identity of the memory denoted by the addressable path expression e.
+func (r *rewriter) memPtr(e ast.Expr) string {
+	if t := r.info().TypeOf(e); t != nil {
+		if _, isMap := t.Underlying().(*types.Map); isMap {
+			return "vs.MapPtr(&" + r.src(e) + ")"
+		}
+	}
+	return "unsafe.Pointer(&" + r.src(e) + ")"
+}
+
+// objPtr is the identity of the container object a method is called on.
+func (r *rewriter) objPtr(e ast.Expr) string {
+	if t := r.info().TypeOf(e); t != nil {
+		if _, isPtr := t.Underlying().(*types.Pointer); isPtr {
+			return "unsafe.Pointer(" + r.src(e) + ")"
+		}
+	}
+	return "unsafe.Pointer(&" + r.src(e) + ")"
 }
 
 func (r *rewriter) objLoc(v types.Object) string {
@@ -562,9 +593,9 @@ func (r *rewriter) collect(e ast.Node, acc *[]access) {
 				if sel, ok := r.info().Selections[se]; ok && sel.Kind() == types.MethodVal {
 					if root, p := r.rootAndPath(se.X); root != nil {
 						if cn := containerName(r.info().TypeOf(se.X)); cn != "" {
-							*acc = append(*acc, access{p + "#obj", !containerRO[cn][se.Sel.Name]})
+							*acc = append(*acc, access{p + "#obj", !containerRO[cn][se.Sel.Name], r.objPtr(se.X)})
 						}
-						*acc = append(*acc, access{p, false})
+						*acc = append(*acc, access{p, false, r.memPtr(se.X)})
 						for _, a := range x.Args {
 							r.collect(a, acc)
 						}
@@ -574,17 +605,17 @@ func (r *rewriter) collect(e ast.Node, acc *[]access) {
 			}
 			if len(x.Args) == 2 && r.isBuiltin(x.Fun, "delete") {
 				if root, p := r.rootAndPath(x.Args[0]); root != nil {
-					*acc = append(*acc, access{p, true})
+					*acc = append(*acc, access{p, true, r.memPtr(x.Args[0])})
 				}
 			}
 		case *ast.SelectorExpr:
 			if root, p := r.rootAndPath(x); root != nil {
-				*acc = append(*acc, access{p, false})
+				*acc = append(*acc, access{p, false, r.memPtr(x)})
 				return false
 			}
 		case *ast.Ident:
 			if root, p := r.rootAndPath(x); root != nil {
-				*acc = append(*acc, access{p, false})
+				*acc = append(*acc, access{p, false, r.memPtr(x)})
 			}
 		}
 		return true
@@ -595,14 +626,14 @@ func (r *rewriter) lhsAccess(l ast.Expr, acc *[]access) {
 	switch x := unparen(l).(type) {
 	case *ast.IndexExpr:
 		if root, p := r.rootAndPath(x.X); root != nil {
-			*acc = append(*acc, access{p, true})
+			*acc = append(*acc, access{p, true, r.memPtr(x.X)})
 		} else {
 			r.collect(x.X, acc)
 		}
 		r.collect(x.Index, acc)
 	default:
 		if root, p := r.rootAndPath(l); root != nil {
-			*acc = append(*acc, access{p, true})
+			*acc = append(*acc, access{p, true, r.memPtr(unparen(l))})
 			// the base pointer/struct is read
 			if se, ok := unparen(l).(*ast.SelectorExpr); ok {
 				if _, bp := r.rootAndPath(se.X); bp != "" && bp != p {
@@ -677,19 +708,20 @@ func (r *rewriter) stmtAccesses(s ast.Stmt) []access {
 	return out
 }
 
-func (r *rewriter) accessStmt(a access) ast.Stmt {
+func (r *rewriter) accessStmt(a access, site string) ast.Stmt {
 	w := "false"
 	if a.write {
 		w = "true"
 	}
-	return &ast.ExprStmt{X: call(r.vsSel("Access"), str(a.loc), ast.NewIdent(w))}
+	r.needUnsafe = r.needUnsafe || strings.Contains(a.ptr, "unsafe.")
+	return &ast.ExprStmt{X: call(r.vsSel("Access"), ast.NewIdent(a.ptr), str(a.loc), ast.NewIdent(w), str(site))}
 }
 
 func (r *rewriter) instrumentList(list []ast.Stmt) []ast.Stmt {
 	var out []ast.Stmt
 	for _, s := range list {
 		for _, a := range r.stmtAccesses(s) {
-			out = append(out, r.accessStmt(a))
+			out = append(out, r.accessStmt(a, r.site(s.Pos())))
 		}
 		// a for-loop condition is re-evaluated every iteration
 		if f, ok := s.(*ast.ForStmt); ok && f.Cond != nil {
@@ -702,7 +734,8 @@ func (r *rewriter) instrumentList(list []ast.Stmt) []ast.Stmt {
 					if a.write {
 						suffix = ":w"
 					}
-					args = append(args, str(a.loc+suffix))
+					r.needUnsafe = r.needUnsafe || strings.Contains(a.ptr, "unsafe.")
+					args = append(args, call(r.vsSel("A"), ast.NewIdent(a.ptr), str(a.loc+"@"+r.site(f.Pos())+suffix)))
 				}
 				f.Cond = call(r.vsSel("AV"), args...)
 			}
